@@ -433,6 +433,7 @@ func twin(t []string) core.Result {
 	}
 
 	rec := 0
+	var modErr error
 	var finish func() // called after forwarding; sets rec
 	var mods struct {
 		req func(*http.Request) error
@@ -496,7 +497,7 @@ func twin(t []string) core.Result {
 	var hA, hB head
 	var werrA, werrB error
 	if a.Req {
-		mods.req(reqA)
+		modErr = mods.req(reqA)
 		werrA = reqA.Write(&outA)
 		werrB = reqB.Write(&outB)
 		hA, hB = headOfReq(reqA, false), headOfReq(reqB, false)
@@ -508,7 +509,7 @@ func twin(t []string) core.Result {
 		if logger == "har" {
 			mods.req(ctxReq) // the entry the response attaches to
 		}
-		mods.res(resA)
+		modErr = mods.res(resA)
 		werrA = resA.Write(&outA)
 		werrB = resB.Write(&outB)
 		hA, hB = headOfRes(resA, false), headOfRes(resB, false)
@@ -534,6 +535,12 @@ func twin(t []string) core.Result {
 		r := fail("c15:skip-logging-recorded:"+logger, "exchange marked skip-logging was recorded by the %s logger", logger)
 		r.Impl = impl
 		return r
+	}
+	if modErr != nil {
+		// the logger gave up with an error (undecodable body, malformed form/multipart): whether
+		// a record exists then depends on the trusted decoders; oracle-only
+		core.Count("twin:logger-error")
+		return core.Result{Impl: impl, SkipModel: true}
 	}
 	return core.Result{Impl: impl}
 }
